@@ -77,11 +77,13 @@ class Sampler:
         self.xp = xp
 
     def _eval(self, z_np, ref, kind):
+        # like a real kernel, hand over the array the kernel itself holds (no defensive copy)
         z = _like(z_np, ref)
+        before = _to_np64(z).copy()
         val = self.log_prob_fn(z)
         v = _to_np64(val).reshape(-1)
         if SEAM is not None:
-            SEAM.kernel_eval(self, z, val, kind)
+            SEAM.kernel_eval(self, before, val, kind, mutated=not np.array_equal(before, _to_np64(z), equal_nan=True))
         return z, v
 
     def sample(self, z0, n_steps=1, **kwargs):
